@@ -421,7 +421,10 @@ func main() {
 		for _, sc := range append(scens, variants...) {
 			d.enumerate(sc)
 		}
-		for _, sc := range scens[:3] {
+		for i, sc := range scens {
+			if i >= 3 {
+				break
+			}
 			res.Sample(map[string]any{"scenario": sc.Name, "entry": sc.Entry, "peer_bytes": sc.Clear.Len()})
 		}
 	}
